@@ -34,7 +34,7 @@ OUTSIDE = ["IEEE rounding off the dyadic grid (durations are exact reals)", "pro
            "relations that point at an operation of a different circuit", "repetition counts > 1 (covered by C06)"]
 ASSUMPTIONS = ["memo caches start empty at the beginning of each history (fresh process); the history is build -> observe",
                "hash(Sym) is constant and == is decided by the solver, so dict/set/lru_cache/dataclass lookups are modelled as semantic equality"]
-REQUIRED_REACH = ['C04.span', 'C04.empty', 'C04.followers']
+REQUIRED_REACH = ['C04.span', 'C04.empty', 'C04.followers', 'C04.span.after_growth']
 EXHAUSTIVE = {'quick': True, 'thorough': False}
 JOB_OPTS = {'quick': dict(max_paths=4000, max_seconds=300), 'thorough': dict(max_paths=20000, max_seconds=900)}
 
@@ -61,13 +61,19 @@ def jobs(tier, seed):
             p = gen.random_program(rng, ALPHA, 4, 2, reps=(1,))
             if gen.count_leaves(p) <= 8:
                 out.append({'prog': p, 'random': True})
+    k = 0
+    for j in out:
+        if any(st['k'][0] == 'S' for st in j['prog']['steps']):
+            k += 1
+            if k % 2 == 0:
+                j['grow'] = True   # growth history on every second nested program
     return out
 
 
-def check_span(ctx, comp, label, where, inherited_e=False):
-    """duration(comp) == max end - min start over the operations comp lists."""
+def check_span(ctx, comp, label, where, inherited_e=False, reported=None, clause='C04.span'):
+    """duration(comp) == max end - min start over the operations comp lists (`reported`: a duration read earlier, before this listing)."""
     ops = comp.decomposed_operations()
-    dur = comp.duration
+    dur = comp.duration if reported is None else reported
     ctx.observe(f'{label}.duration', dur)
     if not ops:
         ctx.check('C04.empty', dur == 0, {'where': where, 'duration': dur})
@@ -83,7 +89,7 @@ def check_span(ctx, comp, label, where, inherited_e=False):
             early.append(cm.smin([o.start_time for o in inner]) < sub.start_time)
     kids = cm.composite_children(comp)
     node_span = cm.smax([k.end_time for k in kids]) - cm.smin([k.start_time for k in kids])
-    ctx.check('C04.span', dur == span, {'where': where, 'reported': dur, 'span': span, 'starts': starts, 'ends': ends,
+    ctx.check(clause, dur == span, {'where': where, 'reported': dur, 'span': span, 'starts': starts, 'ends': ends,
                                          'fingerprint': 'duration_ne_span', 'early_inner_op_in_nested_block': s_or(*early),
                                          'reported_equals_node_level_span': dur == node_span,
                                          'inherited_joined_end_in_listing': inherited_e})
@@ -135,3 +141,19 @@ def run(ctx, params):
             if n.is_sub:
                 followers(n.children)
     followers(built.nodes)
+    # the same two clauses after a nested block grew through the handle add() returned for it: the durations are read first (plain
+    # property reads, no listing in between), the listing they are compared with afterwards
+    subs = [n for n in built.nodes if n.is_sub and n.leaves()]
+    if subs and params.get('grow'):
+        from qce_circuit.structure import circuit_operations as co_
+        from qce_circuit.structure.registry_duration import FixedDurationStrategy as FDS
+        blk = subs[0]
+        lf = blk.leaves()[0]
+        blk.obj.add(co_.Wait(lf.kind[1], duration_strategy=FDS(ctx.real('d_grown', lo=0))))
+        d_top, d_blk = circuit.circuit_structure.duration, blk.obj.duration
+        starts_after = [(n.obj.start_time, n.obj.end_time) for n in built.nodes]
+        check_span(ctx, circuit.circuit_structure, 'top.grown', 'circuit after growth', inherited_e, reported=d_top, clause='C04.span.after_growth')
+        check_span(ctx, blk.obj, blk.label() + '.grown', f'sub-circuit {blk.label()} after growth', inherited_e, reported=d_blk, clause='C04.span.after_growth')
+        again = [(n.obj.start_time, n.obj.end_time) for n in built.nodes]
+        ctx.check('C04.span.after_growth.entries', s_and(*[s_and(a[0] == b[0], a[1] == b[1]) for a, b in zip(starts_after, again)]),
+                  {'fingerprint': 'duration_ne_span', 'before_listing': starts_after, 'after_listing': again, 'inherited_joined_end_in_listing': inherited_e})
